@@ -8,7 +8,7 @@ import coqreplay as _coqreplay
 PROP = {
     "coq": ["C02", "Findings", "C02s", "C02t"],
     "pre": [regen_src],
-    "extra": [_coqreplay.replay_cc, replay_src({'explen'})],
+    "extra": [_coqreplay.replay_cc, replay_src({'explen', 'cc'}, per_scn=80)],
     "exhaustive": False,
     "rule": "For generated valid requests of all 30 calls (MBAP and RTU framing): the valid reply, the valid reply plus trailing "
             "bytes, single-field corruptions (txn, protocol id, length, unit, function code, exception bit, byte count, data, echo "
